@@ -205,3 +205,15 @@ func (m *bsim) cliBuild(ctx context.Context, root string) (bufimage.Image, []byt
 	}
 	return image, data, nil
 }
+
+// cliText runs another command of the real CLI on the workspace (same input and path flags as the
+// build) and returns what it printed; a non-zero exit because of findings is part of the result.
+func (m *bsim) cliText(ctx context.Context, root string, command string, extra ...string) string {
+	var stdout, stderr bytes.Buffer
+	env := map[string]string{"HOME": filepath.Join(m.env.Scratch, "cli", "home"), "BUF_CACHE_DIR": filepath.Join(m.env.Scratch, "cli", "cache"), "PATH": ""}
+	args := append([]string{"buf", command, m.cliInput}, m.cliArgs(root)...)
+	args = append(args, extra...)
+	container := app.NewContainer(env, strings.NewReader(""), &stdout, &stderr, args...)
+	err := appcmd.Run(ctx, container, bufcli.NewRootCommand("buf"))
+	return fmt.Sprintf("%s\n--- stderr\n%s\n--- failed=%v", stdout.String(), stderr.String(), err != nil)
+}
